@@ -7,7 +7,7 @@
     The cloud API is the fake that completes every tracked job when polled. *)
 From Coq Require Import List Bool Arith ZArith.
 From RV Require Import Model.ArrCounter Proofs.ArrCounterInv Model.ArrLife Proofs.ArrLifeInv.
-From RV Require Import Model.GlueWaves Proofs.GlueWavesInv.
+From RV Require Import Model.GlueWaves Proofs.GlueWavesInv Model.MonWalk Proofs.MonWalkInv.
 From RV Require Import Model.Monitor Proofs.MonitorBase Proofs.MonitorWitness Proofs.MonitorFixed.
 Import ListNotations.
 Open Scope list_scope.
@@ -148,6 +148,27 @@ Proof. exact early_return_stuck. Qed.
 Theorem C10_glue_shipped_not_stuck : ~ waves_stuck AlwaysCheck.
 Proof. exact shipped_not_stuck. Qed.
 
+(** ---- The monitor's status collection: snapshot vs live pending map ([Model/MonWalk.v]) ----
+    Any number of jobs, every interleaving of submits with the item-by-item walk and the processing. *)
+Theorem C10_walk_snapshot_exactly_once : forall js s, wreach Snapshot (winit js) s ->
+  w_err s = false /\ (exists rest, js = w_reported s ++ rest) /\ (w_pc s = WDead -> w_reported s = js).
+Proof. exact snapshot_exactly_once. Qed.
+
+Theorem C10_walk_snapshot_progress : forall js s, wreach Snapshot (winit js) s -> w_pc s <> WDead ->
+  exists a s', wstep Snapshot s a = Some s'.
+Proof. exact snapshot_progress. Qed.
+
+(** Walking the live map: a submit during the walk aborts it, the collected statuses are lost. *)
+Theorem C10_walk_refuted_live : walk_loses Live.
+Proof. exact live_loses. Qed.
+
+Theorem C10_walk_snapshot_never_loses : ~ walk_loses Snapshot.
+Proof. exact snapshot_never_loses. Qed.
+
+Print Assumptions C10_walk_snapshot_exactly_once.
+Print Assumptions C10_walk_snapshot_progress.
+Print Assumptions C10_walk_refuted_live.
+Print Assumptions C10_walk_snapshot_never_loses.
 Print Assumptions C10_glue_queue_has_submitter.
 Print Assumptions C10_glue_waves_progress.
 Print Assumptions C10_glue_waves_quiescent.
